@@ -488,7 +488,32 @@ def _r5(run):
     ce = [e for e in r.events if e.kind == "call" and e.term[1][0] == "attr" and e.term[1][2] == "check_exists"]
     names = [e.term[2][1] for e in ce if len(e.term[2]) == 2]
     done = [e for e in ce if len(e.term[2]) == 2 and e.term[2][1] == ("const", SENTINEL)]
-    if done:
+    # every marker whose presence makes refresh pass over a candidate is either the sentinel or a flag file that some
+    # command stores on its own (put_item(<id>, '<name>', ...) with a literal name, e.g. skip.flag) - never another file of
+    # the image's directory, which publish may upload long before the sentinel
+    flags = set()
+    for g_ in project.py_funcs():
+        if not g_.module.name.startswith(PIPE):
+            continue
+        for c_ in own_calls(g_.node):
+            if callee_attr(c_) == "put_item" and len(c_.args) >= 2 and isinstance(c_.args[1], ast.Constant) and isinstance(c_.args[1].value, str) \
+                    and not any(isinstance(a_, ast.Starred) for a_ in c_.args):
+                flags.add(c_.args[1].value)
+    skips = [e for e in r.events if e.kind in ("continue", "break", "return")]
+    other = []
+    for e in ce:
+        if len(e.term[2]) == 2 and e.term[2][1][0] == "const" and e.term[2][1][1] not in (SENTINEL,) and e.term[2][1][1] not in flags:
+            # does a positive answer let the candidate be skipped?
+            for sk in skips:
+                if any(c[0] == e.term and c[1] for c in sk.pc if c[0] != "loop") or any(e.term in atoms_of(c[0]) for c in sk.pc if c[0] != "loop" and c[0] != e.term):
+                    other.append((e, sk))
+                    break
+    if other:
+        e, sk = other[0]
+        run.violated("C18.R5", f, e.node, "refresh passes over a candidate when '%s' is in the store, but publish gives that file no place in the upload order ('%s' is "
+                     "what it saves for last): an image whose publication was interrupted is taken for done and never completed" % (e.term[2][1][1], SENTINEL),
+                     kind="sentinel-mismatch-refresh")
+    elif done:
         run.holds("C18.R5", f, done[0].node, "refresh treats the presence of '%s' in the store as 'already published'" % SENTINEL)
     elif not ce:
         run.undecided("C18.R5", f, None, "refresh does not ask the store for a marker file in any place the analysis follows", kind="sentinel-refresh-shape")
